@@ -1,7 +1,7 @@
 (** * C12 property theorems — statements only; proofs live in C12/*Proofs.v. *)
 From Coq Require Import Reals ZArith List.
 From Celer Require Import Base.Num Base.NumR Base.Vec3
-  C12.Solver C12.Surfaces C12.Transforms C12.SolverProofs C12.SurfacesProofs C12.TransformsProofs.
+  C12.Solver C12.Surfaces C12.Transforms C12.SolverProofs C12.SurfacesProofs C12.TransformsProofs C12.Simplify C12.SimplifyProofs.
 Import ListNotations.
 Local Open Scope R_scope.
 
@@ -47,22 +47,37 @@ Theorem C12_solve_ordered : forall a hb c on t0 t1,
 Proof. exact solve_general_ordered. Qed.
 Print Assumptions C12_solve_ordered.
 
-(** the documented tolerance window 0 < |a| < min_a (ray treated as parallel) *)
-Theorem C12_solve_window_partial : forall a hb c,
+(** the documented tolerance window 0 < |a| < min_a (ray treated as parallel);
+    [strict] selects the along-surface comparison (false: as coded `< 0`, true: repaired `<= 0`) *)
+Theorem C12_solve_window_partial : forall strict a hb c,
   0 < Rabs a < min_a_R ->
-  (forall t, In (Some t) (isect2_list (solve_general (T:=R) a hb c false)) ->
+  (forall t, In (Some t) (isect2_list (solve_general_gen (T:=R) strict a hb c false)) ->
              0 <= t /\ 2 * hb * t + c = 0 /\ qpoly a hb c t = a * t * t) /\
   (forall t1 t2, qpoly a hb c t1 = 0 -> qpoly a hb c t2 = 0 -> t1 <> t2 ->
                  Rabs hb / Rabs a <= Rmax (Rabs t1) (Rabs t2)).
 Proof. exact solve_window_partial. Qed.
 Print Assumptions C12_solve_window_partial.
 
-(** solve_along_surface keeps t = 0 (start point exactly on the surface with
-    state "off"), unlike every other branch: positivity is refuted there *)
+(** solve_along_surface as coded (`result[0] < 0`) keeps t = 0 (start point
+    exactly on the surface with state "off"), unlike every other branch:
+    positivity is refuted there (finding) ... *)
 Theorem C12_solve_along_zero_refuted :
-  exists hb c, In (Some 0) (isect2_list (solve_along (T:=R) hb c)).
+  exists hb c, In (Some 0) (isect2_list (solve_along_gen (T:=R) false hb c)).
 Proof. exact solve_along_zero_refuted. Qed.
 Print Assumptions C12_solve_along_zero_refuted.
+
+(** ... and with the repaired comparison (`<= 0`) every returned distance is
+    strictly positive, with no side condition on c *)
+Theorem C12_solve_along_positive_repaired : forall hb c t,
+  In (Some t) (isect2_list (solve_along_gen (T:=R) true hb c)) -> 0 < t /\ 2 * hb * t + c = 0.
+Proof. exact solve_along_positive_repaired. Qed.
+Print Assumptions C12_solve_along_positive_repaired.
+
+Theorem C12_solve_sound_repaired : forall a hb c t,
+  (min_a_R <= Rabs a \/ a = 0) ->
+  In (Some t) (isect2_list (solve_general_gen (T:=R) true a hb c false)) -> 0 < t /\ qpoly a hb c t = 0.
+Proof. exact solve_sound_repaired. Qed.
+Print Assumptions C12_solve_sound_repaired.
 
 (** ** Every surface type (PlaneAligned, Plane, SphereCentered, Sphere, CylCentered,
     CylAligned, ConeAligned, SimpleQuadric, GeneralQuadric) *)
@@ -163,3 +178,19 @@ Print Assumptions C12_signed_perm_orthogonal.
 Theorem C12_signed_perm_encoding : forall p : sperm, sp_decode (sp_encode p) = p.
 Proof. exact signed_perm_encoding. Qed.
 Print Assumptions C12_signed_perm_encoding.
+
+(** ** SurfaceSimplifier (+ Quadric{Plane,Sphere,Cyl,Cone}Converter)
+    whenever every quantity it snaps is exactly zero / equal ([snap_exact]),
+    the result is a positive multiple of the surface function, negated exactly
+    when the simplifier reports a sense flip *)
+Theorem C12_simplify_scaled : forall tol s s' flip, 0 < tol < 1 ->
+  snap_exact tol s -> simplify tol s = Some (s', flip) ->
+  exists k, 0 < k /\ forall p, surf_f s' p = (if flip then - k else k) * surf_f s p.
+Proof. exact simplify_scaled. Qed.
+Print Assumptions C12_simplify_scaled.
+
+Theorem C12_simplify_sense : forall tol s s' flip p, 0 < tol < 1 ->
+  snap_exact tol s -> simplify tol s = Some (s', flip) ->
+  surf_sense s' p = if flip then flip_ssense (surf_sense s p) else surf_sense s p.
+Proof. exact simplify_sense. Qed.
+Print Assumptions C12_simplify_sense.
